@@ -258,8 +258,15 @@ def rule_r5(chk):
             return conv(node.func.value)
         return None
     try:
-        got = alg.ToIR(call=call)(np_)
-        want = add(sym("new_maybelog_levels"), mul(sym("self._shift_vec"), sym("new_maybelog_changes")))
+        from ..core import inline_locals
+        lv = [n.targets[0].id for n in walk_no_nested(f) if isinstance(n, ast.Assign) and isinstance(n.targets[0], ast.Name) and isinstance(n.value, ast.Call)
+              and dotted(n.value.func) == "self._get_maybelog_levels"]
+        cv = [n.targets[0].id for n in walk_no_nested(f) if isinstance(n, ast.Assign) and isinstance(n.targets[0], ast.Name) and isinstance(n.value, ast.Call)
+              and dotted(n.value.func) == "self._get_maybelog_changes"]
+        if np_ is None or len(lv) != 1 or len(cv) != 1:
+            raise Undecided("levels / changes / path assignment not recognised")
+        got = alg.ToIR(call=call)(inline_locals(f, np_, keep=(lv[0], cv[0])))
+        want = add(sym(lv[0]), mul(sym("self._shift_vec"), sym(cv[0])))
         chk.ob("C05-R5", "steadiers.evaluators.NonflatSteadyEvaluator._update_steady_array[path]", alg.equal(got, want),
                f"new_paths = {alg.show_rat(alg.nf(got))}", em.loc(f))
     except (Undecided, TypeError, AttributeError) as e:
